@@ -243,6 +243,9 @@ var specs = map[string]*propSpec{
 		rule:        "each case is one built-in plugin (all 15) with one argument vector drawn from valid, boundary and invalid values of each argument kind (addresses of both families and v4-mapped, CIDRs incl. /0 and host routes, durations incl. negative/huge/garbage, integers incl. negative/overflow, URLs, labels of 63/64/255 bytes, file names: valid, malformed, empty, missing, directory; arity 0..6), hosted alone in a fresh server process through plugins.LoadPlugins; if setup accepts it, 40 requests are handled and every reply must parse, re-serialise to the same bytes and carry the options of the in-memory response. Non-trivial = every vector (accepted or rejected); distinct by (plugin, protocol, args)",
 		assumptions: assume("silent truncation that round-trips (MTU 70000 -> 4464) is an observation, not a violation, as the statement only demands a reply that serialises and parses back to the same options"),
 		runs: []runSpec{{engine: "setup", qBatches: 16, qCases: 180, tBatches: 64, tCases: 4000},
+			// the same vectors hosted inside the private network namespace, where DHCPv4 requests of directly
+			// attached clients are answered by hand-built Ethernet frames (the second serialiser)
+			{engine: "setup", netns: true, qBatches: 8, qCases: 60, tBatches: 32, tCases: 600},
 			// accepted configurations with several instances of one plugin (dual-stack and twin file instances, empty lease files)
 			{engine: "file", parallel: 12, qBatches: 8, qCases: 12, tBatches: 32, tCases: 60, stall: 6 * time.Minute}},
 		guards: []guard{{"setup.accepted", 200, "accepted vectors"}, {"setup.rejected", 200, "rejected vectors"}, {"setup.replies_round_tripped", 3000, "replies round-tripped"}},
